@@ -422,8 +422,8 @@ Lemma await_fresh fe n cbp dig life vm t nid :
   await_rec fe t (fresh_rec n cbp dig life vm t nid) =
   mkI n cbp dig life (t + life) vm nid FPending WWaiting (t + life) false false VNone.
 Proof.
-  intros L. unfold await_rec, fresh_rec; cbn. destruct fe; cbn; auto.
-  destruct (N.leb_spec (t + life) t); [lia | reflexivity].
+  intros L. unfold await_rec, fresh_rec; cbn.
+  destruct fe; cbn; (destruct (N.leb_spec (t + life) t); [lia | reflexivity]).
 Qed.
 
 Lemma step_express_await fe s i n cbp dig life vm t :
